@@ -11,6 +11,7 @@ import math, random, sys
 from fractions import Fraction
 from common import *
 import c09 as _T   # table / abscissa generators shared with C09 (same owner)
+import c01 as _C1  # 'tables as in C01': offsets to 1e8, spacing ratios to 1e9, ordinates 1e-20..1e20
 
 if hasattr(sys, "set_int_max_str_digits"):
     sys.set_int_max_str_digits(0)   # exact integrals over hundreds of segments have numerators of >4300 digits
@@ -41,22 +42,30 @@ class T:
         return _T.outside_bad(rng, xs)
 
 
-RULE = ("requests are drawn from VERIF_SEED: tables as in C09 (3..1000 knots, plus a deterministic family with the unique extreme on every knot around multiples of 32/64 and at the ends, four spacing laws, four ordinate laws, "
+RULE = ("requests are drawn from VERIF_SEED: half of the tables as in C01 (gen_xs/gen_ys of props/c01.py: offsets to 1e8, spacing ratios to 1e9, ordinates 1e-20..1e20, plateaus, spikes, near-flat), half as in C09 (3..1000 knots, plus a deterministic family with the unique extreme on every knot around multiples of 32/64 and at the ends, four spacing laws, four ordinate laws, "
         "power-of-two unit factors), limit pairs inside one interval / spanning many / at knots / reversed / in the 1% "
         "zone, prefactors (+,-,tiny,huge) set by Set_Prefactor and Multiply before and between queries; a case is "
         "non-trivial when the model answers ok/err and is counted once per distinct (family, call kind, table-size "
         "class, sign class of the prefactor, span class of the limits)")
-CORR_ONLY = ["the interior of the 1% extrapolation zone is not sampled by the extremum oracle (a turning point of the edge cubic strictly "
-             "between the end knot and an extrapolated limit is not a candidate of Local_*; second-order, accepted by the integrator); "
-             "the Lean statements for such limits (localExt_curve_zone, integ_bounds_zone) carry it as the explicit hypothesis MonoOn "
-             "(edge cubic monotone between the limit and the end knot); inside the domain localExt_curve / integ_bounds are proved "
-             "without hypotheses by composing C01's interp_monotone_on_segment and C09's locate theorems"]
+CORR_ONLY = ["OPEN FINDING (audit defect 16): the interior of the 1% extrapolation zone IS sampled; a turning point of the edge cubic strictly "
+             "between an extrapolated limit and the end knot is not a candidate of Local_* (clause 'extrapolation zone interior: ...'; repair proposed: "
+             "stationary points of the edge piece as candidates). Because of it the clause 'min x length <= Integrate <= max x length' is evaluated "
+             "for limits inside the domain only, and the Lean statements for limits in the zone (localExt_curve_zone, integ_bounds_zone) carry the "
+             "explicit hypothesis MonoOn (edge cubic monotone between the limit and the end knot); inside the domain localExt_curve / integ_bounds "
+             "are proved without hypotheses by composing C01's interp_monotone_on_segment and C09's locate theorems",
+             "slack that remains: one evaluation is compared with Local_* at 64 eps x (sum of |terms| of the cubic), with Global_* at 32 eps (1-D) / "
+             "8 eps (2-D) x max|table| x |prefactor| (rounding of the evaluation itself); Integrate at 16 eps x sum of |terms| relative to the left "
+             "abscissa; scaling by Set_Prefactor/Multiply is demanded bit-for-bit (Integrate: for factors +-2^k, otherwise 128 eps x scale)"]
 ASSUMPTIONS = ["std::min_element/std::max_element/std::min/std::max return an extremal element",
-               "unit factors in the generated requests are powers of two (exact in double), so model and code see the same table"]
+               "unit factors in the generated requests are powers of two (exact in double), so model and code see the same table",
+               "abscissae with 0 < |x| < 1e-200 are mapped to 0 by the generator (underflow of products is not in the model); absolute slack 2^-1000"]
 TRUSTED = []
 
-K_B = 256          # class-B factor (calibrated: worst observed ratio on the unchanged tree x16, see evidence 'max_ratio')
-TOL_ORACLE = Fraction(1, 2 ** 36)
+K_B = 16           # class-B factor; the scale is relative to the left abscissa of each interval (fix d3bfb03); worst observed ratio in evidence 'max_ratio'
+K_GLOBAL_1D = 32   # eps: evaluation vs Global_* (audit: worst 13.5 eps)
+K_GLOBAL_2D = 8    # eps (audit: worst 4.8 eps)
+ZONE_CLAUSE = "extrapolation zone interior: an evaluation strictly between an extrapolated limit and the end knot lies outside [Local_Minimum, Local_Maximum]"
+K_EVAL = 64        # eps x (terms of the cubic): rounding of one evaluation, the only slack of 'no evaluation falls outside Local_*'
 ATOL = Fraction(1, 2 ** 1000)   # underflow to zero / denormals are not in the model
 
 
@@ -76,12 +85,16 @@ def pref_ops(rng):
 def table(rng, tier):
     c = rng.random()
     n = rng.randint(3, 8) if c < 0.3 else (rng.randint(9, 60) if c < 0.8 else rng.randint(61, 600 if tier == "thorough" else 250))
-    xs = T.fix_increasing(T.make_xs(rng, n, rng.choice(["uniform", "random", "geometric", "clustered"])))
-    kind = rng.randrange(5)
-    if kind == 4:     # the fix commit's shape: extremum at an interior knot
-        ys = [float(abs(i - n // 2) ** 2 + 1) * rng.choice([1.0, -1.0]) for i in range(n)]
+    if rng.random() < 0.5:   # tables as in C01
+        xs = T.fix_increasing(_C1.gen_xs(rng, n, rng.choice(_C1.XKINDS)))
+        ys = _C1.gen_ys(rng, xs, rng.choice(_C1.YKINDS))
     else:
-        ys = T.make_ys(rng, n, kind)
+        xs = T.fix_increasing(T.make_xs(rng, n, rng.choice(["uniform", "random", "geometric", "clustered"])))
+        kind = rng.randrange(5)
+        if kind == 4:     # the fix commit's shape: extremum at an interior knot
+            ys = [float(abs(i - n // 2) ** 2 + 1) * rng.choice([1.0, -1.0]) for i in range(n)]
+        else:
+            ys = T.make_ys(rng, n, kind)
     xd = rng.choice([-1.0, -1.0, 2.0, 0.5, 0.25])
     fd = rng.choice([-1.0, -1.0, 4.0, 0.125])
     xs2 = [x * xd for x in xs] if xd > 0 else xs
@@ -134,12 +147,29 @@ def build_ext(rng, meta, xs, ys, xd, fd, xs2, ys2, P, p, x1, x2, fam="ext"):
     for x in inside[:20]:
         samples += [v for v in (math.nextafter(x, math.inf), math.nextafter(x, -math.inf)) if x1 <= v <= x2 and T.nd(v) == v]
     nin = len(samples)
+    # strictly inside the 1% zone, between an extrapolated limit and the end knot (open finding C08-zone-turning-point)
+    zone_s = []
+    if x1 < xs2[0]:
+        top = min(x2, xs2[0])
+        zone_s += [x1 + (top - x1) * (i + 1) / 9.0 for i in range(8)]
+    if x2 > xs2[-1]:
+        bot = max(x1, xs2[-1])
+        zone_s += [bot + (x2 - bot) * (i + 1) / 9.0 for i in range(8)]
+    zone_s = [T.nd(v) for v in zone_s if x1 <= v <= x2]
+    samples += zone_s
+    nzone = len(zone_s)
     for _ in range(15):   # anywhere in the domain: global bounds
         samples.append(T.point(rng, xs2, rng.randint(0, len(xs2) - 2)))
     samples += [xs2[0], xs2[-1]]
-    ops = P + ["m %s %s" % (hx(x1), hx(x2)), "M %s %s" % (hx(x1), hx(x2)), "gm", "gM"] + ["I %s" % hx(s) for s in samples]
+    ext4 = ["m %s %s" % (hx(x1), hx(x2)), "M %s %s" % (hx(x1), hx(x2)), "gm", "gM"]
+    dq = ["D %s %d" % (hx(samples[i % len(samples)]), 1 + i % 3) for i in range(6)]
+    # the same queries at the unit prefactor first: Set_Prefactor/Multiply must change them by exactly the factor
+    nunit = min(16, len(samples))
+    unit = (ext4 + ["I %s" % hx(v) for v in samples[:nunit]] + dq) if P else []
+    ops = unit + P + ext4 + ["I %s" % hx(v) for v in samples] + dq
     rq = "%s %d %s" % (head(xs, ys, xd, fd), len(ops), " ".join(ops))
-    meta[rq] = dict(fam="ext", gen=fam, np=len(P), nin=nin, allknots=allknots, p=p, n=len(xs), span=len(inside),
+    meta[rq] = dict(fam="ext", gen=fam, np=len(unit) + len(P), nin=nin, nzone=nzone, nunit=nunit if P else 0, nd=len(dq), ns=len(samples),
+                    allknots=allknots, p=p, n=len(xs), span=len(inside),
                     ymax=max(abs(y) for y in ys2), zone=(x1 < xs2[0] or x2 > xs2[-1]), xs=xs2, ys=ys2)
     return rq
 
@@ -195,6 +225,34 @@ def gen_block(rng, tier, meta):
     return R
 
 
+def gen_zone(rng, tier, meta):
+    """tables whose edge cubic turns inside the 1% zone (boundary slope limited to almost zero: s1 ~ 3 s0), limits in the zone"""
+    R = []
+    x = [0.0, 1.0, 2.0]; y = [0.0, 1.0, 3.98]     # the audit's example
+    R.append(build_ext(rng, meta, x, y, -1.0, -1.0, x, y, [], 1.0, -0.009, 0.5, fam="zone"))
+    for _ in range(60 if tier == "thorough" else 12):
+        n = rng.randint(3, 6)
+        h = rng.choice([1.0, 0.5, 2.0, rng.uniform(0.1, 10)])
+        x0 = rng.choice([0.0, -3.0, rng.uniform(-100, 100)])
+        xs = [x0 + i * h for i in range(n)]
+        s0 = rng.choice([-1.0, 1.0]) * 10.0 ** rng.uniform(-2, 2)
+        dl = rng.uniform(0.0005, 0.02)
+        ys = [rng.uniform(-5, 5)]
+        ys.append(ys[0] + s0 * h)
+        ys.append(ys[1] + 3 * s0 * (1 - dl) * h)
+        while len(ys) < n:
+            ys.append(ys[-1] + s0 * h * rng.uniform(0.5, 3))
+        if rng.random() < 0.5:    # the same at the right end
+            xs = [-(v) for v in reversed(xs)]; ys = list(reversed(ys))
+            x2 = xs[-1] + rng.uniform(0.3, 0.95) * 0.01 * (xs[-1] - xs[-2]); x1 = T.point(rng, xs, rng.randint(0, n - 2))
+        else:
+            x1 = xs[0] - rng.uniform(0.3, 0.95) * 0.01 * (xs[1] - xs[0]); x2 = T.point(rng, xs, rng.randint(0, n - 2))
+        xs = T.fix_increasing(xs)
+        P, p = pref_ops(rng)
+        R.append(build_ext(rng, meta, xs, ys, -1.0, -1.0, xs, ys, P, p, min(x1, x2), max(x1, x2), fam="zone"))
+    return R
+
+
 def exact_mid(b, b2):
     m = (b + b2) / 2
     return m if Fraction(m) * 2 == Fraction(b) + Fraction(b2) else None
@@ -210,6 +268,9 @@ def gen_add(rng, tier, meta):
         pts.append(xs2[rng.randint(0, n - 1)] if c < 0.3 else (T.outside_ok(rng, xs2) if c < 0.36 else T.point(rng, xs2, rng.randint(0, n - 2))))
     a, b, c_ = pts
     ops = P + ["G %s %s" % (hx(u), hx(v)) for u, v in ((a, b), (b, c_), (a, c_), (b, a), (c_, b), (c_, a), (a, a))]
+    # min*len <= Integrate <= max*len with the curve extrema over the range
+    lo_, hi_ = min(a, b), max(a, b)
+    ops += ["m %s %s" % (hx(lo_), hx(hi_)), "M %s %s" % (hx(lo_), hx(hi_))]
     q = None
     if rng.random() < 0.6:   # a factor applied BETWEEN queries: the same integrals must scale by exactly q
         q = rng.choice([-1.0, 2.0, 0.5, -3.0, -0.25, 1e-10, -1e10])
@@ -327,6 +388,7 @@ def generate(tier, seed, ctx):
     for _ in range(1500 if th else 220):
         R.append(gen_ext(rng, tier, meta))
     R += gen_block(rng, tier, meta)
+    R += gen_zone(rng, tier, meta)
     for _ in range(1500 if th else 220):
         R.append(gen_add(rng, tier, meta))
     for _ in range(1500 if th else 220):
@@ -441,7 +503,7 @@ class PyScale:
     def stem(self, j, X):
         a, b, c, d = self.coef(j)
         t = abs(X - self.x[j])
-        return a / 4 * t ** 4 + b / 3 * t ** 3 + c / 2 * t ** 2 + d * abs(X)
+        return a / 4 * t ** 4 + b / 3 * t ** 3 + c / 2 * t ** 2 + d * t
 
     def integ(self, v1, v2):
         lo, hi = (v2, v1) if v1 > v2 else (v1, v2)
@@ -536,37 +598,59 @@ def oracle(meta, ops, vi, vm, ctx):
 
     if fam == "ext":
         m, M, gm, gM = vi[np_:np_ + 4]
-        S = vi[np_ + 4:]
-        nin = meta["nin"]
+        ns, nin, nzone = meta["ns"], meta["nin"], meta.get("nzone", 0)
+        S = vi[np_ + 4:np_ + 4 + ns]
+        Dv = vi[np_ + 4 + ns:np_ + 4 + ns + meta["nd"]]
         if any(v is None or math.isnan(v) for v in [m, M, gm, gM] + S):
             return [fail("prop", "non-finite extremum or sample", "")]
-        ymax = abs(meta["p"]) * meta["ymax"]
-        # rounding of an evaluation is relative to the terms of the cubic, not to its value
+        p = meta["p"]
+        ymax = abs(p) * meta["ymax"]
+        # the only slack: rounding of one evaluation, relative to the terms of the cubic (not to its value)
         if vm is not None:
-            rs = max(float(v[1]) for v in vm[np_ + 4:np_ + 4 + nin])
+            sc_s = [float(v[1]) for v in vm[np_ + 4:np_ + 4 + nin + nzone]]
         else:
-            ps = PyScale(meta["xs"], meta["ys"], meta["p"])
-            rs = max(ps.interp(fl(o[1])) for o in ops[np_ + 4:np_ + 4 + nin])
-        tol = float(TOL_ORACLE) * max(abs(m), abs(M), max(abs(s) for s in S[:nin])) + 64 * 2.0 ** -53 * rs
-        tolg = float(TOL_ORACLE) * max(abs(gm), abs(gM), ymax)
+            ps = PyScale(meta["xs"], meta["ys"], p)
+            sc_s = [ps.interp(fl(o[1])) for o in ops[np_ + 4:np_ + 4 + nin + nzone]]
+        tol = K_EVAL * 2.0 ** -53 * max(sc_s[:nin])
+        tolg = K_GLOBAL_1D * 2.0 ** -53 * max(abs(gm), abs(gM), ymax)
         lo, hi = min(S[:nin]), max(S[:nin])
         if lo < m - tol:
             out.append(fail("prop", "an evaluation inside [x1,x2] lies below Local_Minimum", "sample %r < %r" % (lo, m)))
         if hi > M + tol:
             out.append(fail("prop", "an evaluation inside [x1,x2] lies above Local_Maximum", "sample %r > %r" % (hi, M)))
+        if nzone:
+            Z = S[nin:nin + nzone]
+            tolz = K_EVAL * 2.0 ** -53 * max(sc_s[nin:])
+            if min(Z) < m - tolz or max(Z) > M + tolz:
+                out.append(fail("prop", ZONE_CLAUSE, "samples %r..%r vs [%r,%r]" % (min(Z), max(Z), m, M)))
         if meta["allknots"]:
             if lo > m + tol:
                 out.append(fail("prop", "Local_Minimum is not attained on [x1,x2] (end points and knots sampled)", "min sample %r, returned %r" % (lo, m)))
             if hi < M - tol:
                 out.append(fail("prop", "Local_Maximum is not attained on [x1,x2] (end points and knots sampled)", "max sample %r, returned %r" % (hi, M)))
-        inner = [s for s, o in zip(S, ops[np_ + 4:]) if True]
         # the 1% zone may leave the table's range: global bounds are claimed over the domain only
-        dom = [s for s, o in zip(S[nin:], ops[np_ + 4 + nin:])]
+        dom = S[nin + nzone:]
         if dom and (min(dom) < gm - tolg or max(dom) > gM + tolg):
             out.append(fail("prop", "an evaluation in the domain lies outside [Global_Minimum, Global_Maximum]", "%r..%r vs [%r,%r]" % (min(dom), max(dom), gm, gM)))
         if gm > gM:
             out.append(fail("prop", "Global_Minimum > Global_Maximum", "%r %r" % (gm, gM)))
-        ctx["nontrivial"].add(("oracle.ext", sgn_class(meta["p"]), min(meta["span"], 4), meta["allknots"]))
+        # Set_Prefactor / Multiply change every output by exactly the factor (extrema swap for a negative one)
+        nu = meta.get("nunit", 0)
+        if nu:
+            um, uM, ugm, ugM = vi[0:4]
+            uS = vi[4:4 + nu]
+            uD = vi[4 + nu:4 + nu + meta["nd"]]
+            pairs = [("Interpolate", S[i], uS[i]) for i in range(nu)] + [("Derivative", Dv[i], uD[i]) for i in range(len(uD))]
+            if p >= 0:
+                pairs += [("Local_Minimum", m, um), ("Local_Maximum", M, uM), ("Global_Minimum", gm, ugm), ("Global_Maximum", gM, ugM)]
+            else:
+                pairs += [("Local_Minimum", m, uM), ("Local_Maximum", M, um), ("Global_Minimum", gm, ugM), ("Global_Maximum", gM, ugm)]
+            for nm, got, u in pairs:
+                if u is None or got is None or not (got == p * u or (math.isnan(got) and math.isnan(p * u))):
+                    out.append(fail("prop", "%s after Set_Prefactor/Multiply is not exactly the factor times the unit-prefactor output" % nm,
+                                    "factor %r, unit output %r, got %r" % (p, u, got)))
+                    break
+        ctx["nontrivial"].add(("oracle.ext", sgn_class(meta["p"]), min(meta["span"], 4), meta["allknots"], nzone > 0, nu > 0))
     elif fam == "ext2":
         gm, gM = vi[np_:np_ + 2]
         S = [v for v, o in zip(vi[np_ + 2:], ops[np_ + 2:]) if o[0] == "I"]
@@ -574,7 +658,7 @@ def oracle(meta, ops, vi, vm, ctx):
         if later:
             S = [v for v, o in zip(vi[np_ + 2:later[0]], ops[np_ + 2:later[0]]) if o[0] == "I"]
         if S:
-            tolg = float(TOL_ORACLE) * max(abs(gm), abs(gM), abs(meta["p"]) * meta["ymax"])
+            tolg = K_GLOBAL_2D * 2.0 ** -53 * max(abs(gm), abs(gM), abs(meta["p"]) * meta["ymax"])
             if min(S) < gm - tolg or max(S) > gM + tolg:
                 out.append(fail("prop", "2-D: an evaluation lies outside [Global_Minimum, Global_Maximum]", "%r..%r vs [%r,%r]" % (min(S), max(S), gm, gM)))
         if gm > gM:
@@ -598,14 +682,37 @@ def oracle(meta, ops, vi, vm, ctx):
         scale = scs[0] + scs[1] + scs[2]
         if abs(Fraction(ab) + Fraction(bc) - Fraction(ac)) > 4 * K_B * EPS * scale + ATOL:
             out.append(fail("prop", "Integrate is not additive over adjacent intervals", "I(a,b)+I(b,c)-I(a,c) = %r" % (ab + bc - ac)))
+        # min*len <= Integrate <= max*len (curve extrema over the range from Local_Minimum/Maximum and from the model)
+        la, lb = lims[0]
+        Iab, lo_, hi_ = (ab, la, lb) if la <= lb else (ba, lb, la)
+        mn, mx = vi[np_ + 7], vi[np_ + 8]
+        dom_lo, dom_hi = meta["xs"][0], meta["xs"][-1]
+        if _finite([mn, mx]) and dom_lo <= lo_ and hi_ <= dom_hi:
+            ln = Fraction(hi_) - Fraction(lo_)
+            sI = (vm[np_][1] if la <= lb else vm[np_ + 3][1]) if vm is not None else scs[0]
+            tolb = K_B * EPS * sI + 4 * EPS * max(abs(Fraction(mn)), abs(Fraction(mx))) * ln + ATOL
+            cands = [("Local_Minimum/Maximum", Fraction(mn), Fraction(mx))]
+            if vm is not None:
+                cands.append(("the model's curve extrema", vm[np_ + 7][0], vm[np_ + 8][0]))
+            for nm, cmn, cmx in cands:
+                if Fraction(Iab) < cmn * ln - tolb or Fraction(Iab) > cmx * ln + tolb:
+                    out.append(fail("prop", "Integrate is outside [minimum x length, maximum x length] of the range",
+                                    "I = %r, length %r, extrema (%s) %r..%r" % (Iab, float(ln), nm, float(cmn), float(cmx))))
+                    break
+            ctx["nontrivial"].add(("oracle.bounds", sgn_class(meta["p"])))
         q = meta.get("q")
-        if q is not None and len(vi) >= np_ + 11:
-            ab2, bc2, ac2 = vi[np_ + 8:np_ + 11]
+        if q is not None and len(vi) >= np_ + 13:
+            ab2, bc2, ac2 = vi[np_ + 10:np_ + 13]
             if not _finite([ab2, bc2, ac2]):
                 return out + [fail("prop", "Integrate returned a non-finite value on a finite table", "")]
             qa = abs(Fraction(q))
+            pow2 = math.frexp(abs(q))[0] == 0.5
             for k, (u1, u2) in enumerate(((ab, ab2), (bc, bc2), (ac, ac2))):
-                if abs(Fraction(u2) - Fraction(q) * Fraction(u1)) > 8 * K_B * EPS * qa * scs[k] + ATOL * max(qa, 1):
+                if pow2:   # a power of two commutes with every rounding: bit-equal
+                    bad = not (u2 == q * u1)
+                else:
+                    bad = abs(Fraction(u2) - Fraction(q) * Fraction(u1)) > 8 * K_B * EPS * qa * scs[k] + ATOL * max(qa, 1)
+                if bad:
                     out.append(fail("prop", "Integrate does not scale by the factor of a Multiply applied between queries",
                                     "before %r, Multiply(%r), after %r" % (u1, q, u2)))
                     break
